@@ -343,3 +343,161 @@ func sortedKeys[V any](m map[int]V) []int {
 	sort.Ints(ks)
 	return ks
 }
+
+// ---- reading scenarios back (corpus files are written in the line protocol) ----
+
+func parseInts(s string) ([]int, error) {
+	if s == "-" || s == "" {
+		return nil, nil
+	}
+	var out []int
+	for _, f := range strings.Split(s, ",") {
+		n, err := strconv.Atoi(f)
+		if err != nil {
+			return nil, err
+		}
+		out = append(out, n)
+	}
+	return out, nil
+}
+
+func kvs(fields []string) map[string]string {
+	m := map[string]string{}
+	for _, f := range fields {
+		if i := strings.IndexByte(f, '='); i > 0 {
+			m[f[:i]] = f[i+1:]
+		}
+	}
+	return m
+}
+
+func parseRemote(s string) ([]remoteEnt, bool, error) {
+	switch s {
+	case "err":
+		return nil, true, nil
+	case "-", "":
+		return nil, false, nil
+	}
+	var out []remoteEnt
+	for _, ent := range strings.Split(s, ";") {
+		i := strings.IndexByte(ent, ':')
+		if i < 0 {
+			return nil, false, fmt.Errorf("bad remote entry %q", ent)
+		}
+		p, err := strconv.Atoi(ent[:i])
+		if err != nil {
+			return nil, false, err
+		}
+		e := remoteEnt{pkg: p}
+		if ent[i+1:] != "" {
+			for _, vs := range strings.Split(ent[i+1:], "+") {
+				var v vulnS
+				if _, err := fmt.Sscanf(vs, "%d.%d", &v.id, &v.payload); err != nil {
+					return nil, false, err
+				}
+				e.vulns = append(e.vulns, v)
+			}
+		}
+		out = append(out, e)
+	}
+	return out, false, nil
+}
+
+// parseScenario is the inverse of (*scenario).lines.
+func parseScenario(lines []string) (*scenario, error) {
+	sc := &scenario{api: "enriched", ctx: "live"}
+	for _, l := range lines {
+		l = strings.TrimSpace(l)
+		if l == "" || l == "reset" || strings.HasPrefix(l, "#") {
+			continue
+		}
+		f := strings.Fields(l)
+		bad := func(err error) (*scenario, error) { return nil, fmt.Errorf("line %q: %v", l, err) }
+		var err error
+		switch f[0] {
+		case "dist", "repo":
+			var n int
+			if _, err = fmt.Sscanf(l, f[0]+" %d", &n); err != nil {
+				return bad(err)
+			}
+			if f[0] == "dist" {
+				sc.dists = append(sc.dists, n)
+			} else {
+				sc.repos = append(sc.repos, n)
+			}
+		case "pkg":
+			var p pkgS
+			if _, err = fmt.Sscanf(l, "pkg %d %d %d", &p.key, &p.id, &p.name); err != nil {
+				return bad(err)
+			}
+			sc.pkgs = append(sc.pkgs, p)
+		case "env":
+			if len(f) != 4 {
+				return bad(fmt.Errorf("want 3 arguments"))
+			}
+			var e envS
+			if e.pkg, err = strconv.Atoi(f[1]); err != nil {
+				return bad(err)
+			}
+			if e.dist, err = strconv.Atoi(f[2]); err != nil {
+				return bad(err)
+			}
+			if e.repos, err = parseInts(f[3]); err != nil {
+				return bad(err)
+			}
+			sc.envs = append(sc.envs, e)
+		case "row":
+			var r rowS
+			var fx, ir int
+			if _, err = fmt.Sscanf(l, "row %d %d %d %d %d %d %d", &r.v.id, &r.v.payload, &r.name, &r.dist, &r.repo, &fx, &ir); err != nil {
+				return bad(err)
+			}
+			r.fixed, r.inRange = fx != 0, ir != 0
+			sc.rows = append(sc.rows, r)
+		case "matcher":
+			kv := kvs(f[1:])
+			m := matcherS{kind: kv["kind"]}
+			if m.names, err = parseInts(kv["names"]); err != nil {
+				return bad(err)
+			}
+			if m.dists, err = parseInts(kv["dists"]); err != nil {
+				return bad(err)
+			}
+			if m.repos, err = parseInts(kv["repos"]); err != nil {
+				return bad(err)
+			}
+			if m.q, err = parseInts(kv["q"]); err != nil {
+				return bad(err)
+			}
+			m.salt, _ = strconv.Atoi(kv["salt"])
+			m.thresh, _ = strconv.Atoi(kv["thresh"])
+			m.verr, _ = strconv.Atoi(kv["verr"])
+			m.cancel = kv["cancel"] == "1"
+			if m.remote, m.remoteErr, err = parseRemote(kv["remote"]); err != nil {
+				return bad(err)
+			}
+			switch m.kind {
+			case "plain", "vf", "auth", "remote":
+			default:
+				return bad(fmt.Errorf("unknown kind"))
+			}
+			sc.matchers = append(sc.matchers, m)
+		case "enricher":
+			kv := kvs(f[1:])
+			e := enricherS{fail: kv["fail"] == "1", sees: kv["sees"] == "1"}
+			e.kind, _ = strconv.Atoi(kv["kind"])
+			if e.msgs, err = parseInts(kv["msgs"]); err != nil {
+				return bad(err)
+			}
+			sc.enrichers = append(sc.enrichers, e)
+		case "scan":
+			if len(f) < 3 {
+				return bad(fmt.Errorf("want api and ctx"))
+			}
+			sc.api, sc.ctx = f[1], f[2]
+		default:
+			return bad(fmt.Errorf("unknown line"))
+		}
+	}
+	return sc, nil
+}
